@@ -5,10 +5,10 @@ import lib, storelib as S, arithlib as A
 from lib import Result, RMODES, OMODES, model_call, run_sharded
 
 RULE = ('(A) every pair of codes for operand words <=3 (quick) / <=4 (thorough), every signedness mix, n_frac -1..n_word+1, the three operators, evaluated as broadcast (n x 1) op (1 x m) arrays; '
-        '(B) the four extreme-code corners of random format pairs whose optimal result word is <=53 bits; (C) random codes, scalar and array operands, through the operator, fxpmath.add/sub/mul and np.add/subtract/multiply; '
+        '(B) the four extreme-code corners of random format pairs whose optimal result word is <=53 bits; (C) random codes, scalar and array operands, through the operator, fxpmath.add/sub/mul and np.add/subtract/multiply, with the integer-code method and (a quarter / a third of the cases) the value method op_method=repr; '
         '(D) random expression trees of depth <=4 (every node checked). Compared with the extracted Spec: exact dyadic result, documented growth rule, flags. '
         'Non-trivial = both operands non-zero; distinct by formats, codes, operator and route.')
-ASSUMPTIONS = ['operands carry no scale/bias; default configuration except where stated']
+ASSUMPTIONS = ['operands are built from raw codes or (integer formats, half of the cases) from integer values; operands carry no scale/bias; default configuration except where stated']
 
 def check_pairs(items, res, stratum):
     """items: list of (op, fxm, codes_x (flat), shape_x, fym, codes_y, shape_y, route, cfg)"""
@@ -22,6 +22,10 @@ def check_pairs(items, res, stratum):
             cfg2 = dict(cfg); build = cfg2.pop('_build', None)
             x = A.mk(fx, np, *fxm, cx if shx is not None else cx[0], shape=shx, **cfg2)
             y = A.mk(fx, np, *fym, cy if shy is not None else cy[0], shape=shy)
+            if build == 'intval':
+                # operands built from integer VALUES (not raw codes) in integer formats: their value type is int
+                if fxm[2] == 0: x = fx.Fxp(np.array(cx, dtype=np.int64).reshape(shx) if shx is not None else int(cx[0]), *fxm, **cfg2)
+                if fym[2] == 0: y = fx.Fxp(np.array(cy, dtype=np.int64).reshape(shy) if shy is not None else int(cy[0]), *fym)
             if build == 'indexed' and shx is None and shy is None:
                 # scalar operands obtained by indexing an array (their raw value is a NumPy scalar or a Python int)
                 x = A.mk(fx, np, *fxm, [0, cx[0]], shape=(2,), **cfg2)[1]; y = A.mk(fx, np, *fym, [cy[0], 0], shape=(2,))[0]
@@ -68,6 +72,7 @@ def check_pairs(items, res, stratum):
         if st[:2] != want_flags or (st[2] and zf[1] <= 53 and not any(s_['inacc'] for s_ in sp)):
             res.fail(full, 'C07: status flags of an exact result are wrong', expected=want_flags + (False,), got=st); continue
         mo = S.read_model_store(mouts[pi])
+        if full['cfg'].get('op_method') == 'repr': continue      # (the model request is the raw method; the value method is compared with the Spec only here, with its model in C08)
         if mo['kind'] != 'ok' or mo['codes'] != zc or mo['status'][:2] != st[:2]:
             res.fail(full, 'model Arith.arith_raw disagrees with the implementation although Spec agrees', expected=str(mo)[:200], got=zc[:8])
             res.failures[-1]['no_input'] = True
@@ -84,7 +89,7 @@ def all_pairs_items(tier, shard, nshards):
             lx, hx = S.fmt_bounds(fxm[0], fxm[1]); ly, hy = S.fmt_bounds(fym[0], fym[1])
             cx = list(range(lx, hx + 1)); cy = list(range(ly, hy + 1))
             for op in '+-*':
-                items.append((op, fxm, cx, (len(cx), 1), fym, cy, (1, len(cy)), ['operator', 'func', 'numpy'][idx % 3], {}))
+                items.append((op, fxm, cx, (len(cx), 1), fym, cy, (1, len(cy)), ['operator', 'func', 'numpy'][idx % 3], ({'op_method': 'repr'} if idx % 4 == 0 else {}) | ({'_build': 'intval'} if idx % 2 == 0 else {})))
     return items
 
 def rand_fmt(rng, maxw=40):
@@ -107,6 +112,9 @@ def random_items(rng, n):
     while len(items) < n:
         fxm, fym = rand_fmt(rng, 40), rand_fmt(rng, 40)
         op = rng.choice('+-*')
+        forced = rng.random() < 0.15
+        if forced:      # integer formats holding integer values, computed by the value method (NumPy integer arithmetic on the values)
+            fxm = (fxm[0], fxm[1], 0); fym = (fym[0], fym[1], 0)
         if A.grow_word(op, fxm, fym) > 53: continue
         kx, ky = rng.choice([1, 1, 3, 4]), rng.choice([1, 1, 3, 4])
         cx = A.interesting_codes(rng, fxm[0], fxm[1], kx); cy = A.interesting_codes(rng, fym[0], fym[1], ky)
@@ -114,7 +122,9 @@ def random_items(rng, n):
         shy = None if ky == 1 and rng.random() < 0.7 else ((ky,) if shx is None or kx == ky or kx == 1 or ky == 1 else None)
         if shy is None and ky != 1: cy = cy[:1]
         if shx is not None and shy is not None and kx != ky and kx != 1 and ky != 1: continue
-        items.append((op, fxm, cx, shx, fym, cy, shy, rng.choice(['operator', 'func', 'numpy']), {}))
+        if forced:
+            items.append((op, fxm, cx, shx, fym, cy, shy, rng.choice(['operator', 'numpy']), {'op_method': 'repr', '_build': 'intval'})); continue
+        items.append((op, fxm, cx, shx, fym, cy, shy, rng.choice(['operator', 'func', 'numpy']), ({'op_method': 'repr'} if rng.random() < 0.3 else {}) | ({'_build': 'intval'} if rng.random() < 0.4 else {})))
     return items
 
 def tree_cases(rng, n, res):
